@@ -67,6 +67,14 @@ fn spec(cfg: Config, sender: Side, depth: usize, devs: usize) -> SeqSpec {
             }
         }
         a.push((Op::SetRecvNonce { side: recv, n: u64::MAX }, true));
+        // the SENDER's receiving nonce is about the other direction: setting it must not disturb what it sends
+        // (in a one-way pattern that direction does not even exist)
+        let ds = usize::from(sender.is_init());
+        for v in [0u64, 3] {
+            if e.abs[sender.idx()].n[ds] != v {
+                a.push((Op::SetRecvNonce { side: sender, n: v }, true));
+            }
+        }
         a
     });
     let goal = Arc::new(move |e: &Exec| e.abs[recv.idx()].n[usize::from(recv.is_init())] == K as u64 && !e.desync);
